@@ -1,10 +1,13 @@
 package main
 
 import (
+	"bufio"
 	"bytes"
 	"fmt"
 	"hash/fnv"
+	"io"
 	"math/rand"
+	"net"
 	"net/http"
 	"net/url"
 	"sort"
@@ -297,7 +300,7 @@ func sortedValues(v url.Values) []string {
 }
 
 func c15(r *hx.Run) {
-	r.Rule = "generated cases on nine locations (one reaching the origin over h2c, no change, the two documented rewrite forms, a literal swap, a two-rule rewrite chain, added request+response headers, added query parameters, upstream Accept-Encoding override): methods GET/HEAD/POST/PUT/DELETE/PATCH, bodies 0..1 MiB (also on GET), upstream statuses 200/201/404/500/503 on the pass-through methods, multi-valued/lower-case/credential headers, queries with repeated keys, escapes and value-less parameters, escaped paths; conditional (matching/non-matching ETag and Last-Modified) and Range (first bytes, suffix, multi, If-Range) headers on cold, hit and hit-for-pass keys against an origin built on http.ServeContent; client A's request is followed by a plain client B. Compared: what the origin logged vs the reference transformation, the client's response vs origin response + configured headers, B never receives 304/206/partial. Non-trivial/distinct = (location, method, conditional kind, key state, cacheable)."
+	r.Rule = "generated cases on nine locations (one reaching the origin over h2c, no change, the two documented rewrite forms, a literal swap, a two-rule rewrite chain, added request+response headers, added query parameters, upstream Accept-Encoding override): methods GET/HEAD/POST/PUT/DELETE/PATCH, bodies 0..1 MiB (also on GET), upstream statuses 200/201/404/500/503 on the pass-through methods, multi-valued/lower-case/credential headers, queries with repeated keys, escapes and value-less parameters, escaped paths; conditional (matching/non-matching ETag and Last-Modified) and Range (first bytes, suffix, multi, If-Range) headers on cold, hit and hit-for-pass keys against an origin built on http.ServeContent; client A's request is followed by a plain client B; beside all this an upstream that takes 11 s to answer and a client that takes 11 s to send its body (no timeout configured). Compared: what the origin logged vs the reference transformation, the client's response vs origin response + configured headers, B never receives 304/206/partial. Non-trivial/distinct = (location, method, conditional kind, key state, cacheable)."
 	r.Assume = []string{"malformed queries, If-Match/412, X-Forwarded-For, User-Agent and the upstream Accept-Encoding when the client sent none (Go's transport adds gzip itself) are not judged", "conditional headers on a cold uncacheable fetch are not judged (pike cannot know cacheability beforehand)", "304 for a conditional HEAD is not demanded (the fresh middleware skips body-less responses; 200 is a correct answer)"}
 	rnd := rand.New(rand.NewSource(r.Seed))
 	locs := c15Locations()
@@ -338,6 +341,12 @@ func c15(r *hx.Run) {
 	defer w.Farm.Close()
 	var cur c15Case
 	w.Farm.SetScript(func(f *hx.Fetch) *hx.Reply {
+		if strings.HasPrefix(f.URI, "/plain/slow-download") {
+			return &hx.Reply{Status: 200, Header: [][2]string{{"Cache-Control", "no-store"}}, Body: []byte("slow-ok"), Delay: 11 * time.Second}
+		}
+		if strings.HasPrefix(f.URI, "/plain/slow-upload") {
+			return &hx.Reply{Status: 200, Header: [][2]string{{"Cache-Control", "no-store"}}, Body: []byte(fmt.Sprintf("got %d bytes", len(f.Body)))}
+		}
 		c := cur
 		cc := "max-age=600"
 		if !c.Cacheable {
@@ -349,6 +358,54 @@ func c15(r *hx.Run) {
 		}
 		return &hx.Reply{ServeContent: true, ETag: c15ETag(c.URI), ModTime: c15ModTime, Header: h, Body: c15Body(c.URI)}
 	})
+	// two slow exchanges run beside everything else: an upstream that takes 11 s to answer, and a client
+	// that takes 11 s to send its body. No timeout is configured, so both must get through unchanged.
+	slowDone := make(chan [2]string, 2)
+	go func() {
+		res := hx.NewClient(nil).Do(hx.Req{Addr: w.Addr, Host: "c15.example", URI: "/plain/slow-download", Timeout: 40 * time.Second})
+		if res.Err != nil || res.Status != 200 || string(res.Raw) != "slow-ok" {
+			slowDone <- [2]string{"slow_download", fmt.Sprintf("an upstream answering after 11 s: status %d err %v body %.40q", res.Status, res.Err, res.Raw)}
+			return
+		}
+		slowDone <- [2]string{"", ""}
+	}()
+	go func() {
+		conn, err := net.DialTimeout("tcp", w.Addr, 5*time.Second)
+		if err != nil {
+			slowDone <- [2]string{"", ""}
+			return
+		}
+		defer conn.Close()
+		conn.SetDeadline(time.Now().Add(40 * time.Second))
+		fmt.Fprintf(conn, "POST /plain/slow-upload HTTP/1.1\r\nHost: c15.example\r\nContent-Length: 12\r\n\r\npart1-")
+		time.Sleep(11 * time.Second)
+		fmt.Fprintf(conn, "part2!")
+		resp, err := http.ReadResponse(bufio.NewReader(conn), nil)
+		if err != nil {
+			slowDone <- [2]string{"slow_upload", "a request body sent over 11 s: " + err.Error()}
+			return
+		}
+		body, _ := io.ReadAll(resp.Body)
+		resp.Body.Close()
+		if resp.StatusCode != 200 || string(body) != "got 12 bytes" {
+			slowDone <- [2]string{"slow_upload", fmt.Sprintf("a request body sent over 11 s: status %d, upstream answered %.40q", resp.StatusCode, body)}
+			return
+		}
+		slowDone <- [2]string{"", ""}
+	}()
+	defer func() {
+		for k := 0; k < 2; k++ {
+			select {
+			case v := <-slowDone:
+				r.Add("slow_exchanges_completed", 1)
+				if v[0] != "" {
+					r.Violate("slow_exchange_cut", map[string]string{"which": v[0]}, v[1], nil, nil)
+				}
+			case <-time.After(60 * time.Second):
+				r.InconclusiveCase("C15: a slow exchange did not finish within 60 s")
+			}
+		}
+	}()
 	n := r.Pick(1200, 150000)
 	for i := 0; i < n && !r.TooMany(); i++ {
 		c, l := c15Gen(rnd, i, locs)
@@ -392,7 +449,12 @@ func c15(r *hx.Run) {
 			r.Add("chunked_request_bodies", 1)
 		}
 		resA := w.Cl.Do(hx.Req{Method: c.Method, Addr: w.Addr, Host: "c15.example", URI: c.URI, Header: sent, Body: body, Chunked: chunked})
-		fetches := w.Farm.LogSince(before)
+		var fetches []*hx.Fetch
+		for _, f := range w.Farm.LogSince(before) {
+			if !strings.HasPrefix(f.URI, "/plain/slow-") { // the slow exchanges running beside the cases
+				fetches = append(fetches, f)
+			}
+		}
 		r.Eval(1)
 		cs := map[string]interface{}{"case": c}
 		if resA.Err != nil {
